@@ -128,6 +128,12 @@ func probes() []probe {
 		{"plain", func(y func()) probeResult { return txt(redact.Sprintf("%d %s %v", 1, "x", true)) }},
 		{"sprint", func(y func()) probeResult { return txt(redact.Sprint("a", 1, 2, "b", nil)) }},
 		{"padded", func(y func()) probeResult { return txt(redact.Sprintf("%8.3f|%-6d|%06d|%x", 3.14159, 42, 42, "hi")) }},
+		{"zero-padded", func(y func()) probeResult {
+			return txt(redact.Sprintf("%08.3f|%06s|%-8q|%05t|%04c|%010x|%+09.2e", 3.14159, "ab", "q", true, 'x', "hex", 12345.678))
+		}},
+		{"space-padded", func(y func()) probeResult {
+			return txt(redact.Sprintf("%8.3f|%6s|%8q|%5t|%4c|%10x|%12v", 3.14159, "ab", "q", true, 'x', "hex", redact.Safe("s")))
+		}},
 		{"badverb", func(y func()) probeResult { return txt(redact.Sprintf("%z %!", 1)) }},
 		{"missing-extra", func(y func()) probeResult { return txt(redact.Sprintf("%d %d", 1) + redact.Sprintf("%d", 1, 2)) }},
 		{"index", func(y func()) probeResult { return txt(redact.Sprintf("%[2]d %[1]d %[9]d", 1, 2)) }},
@@ -275,6 +281,7 @@ func abnormals() []abnormal {
 			b.Printf("%s", big)
 			_ = b.RedactableString()
 		}},
+		{"zero-pads", func(y func()) { _ = redact.Sprintf("%012.4f %08s %06t %09q", 2.5, "z", false, "q") }},
 		{"flags-everywhere", func(y func()) { _ = redact.Sprintf("%+#-0 33.11v %+#-0 33.11x", 3.5, "s") }},
 	}
 }
@@ -479,10 +486,35 @@ func runC12(c *Ctx) {
 			}
 		}
 	}
+	if c.Phase == "race" {
+		c12differential(c)
+	}
 	calls, news := c.counters["calls"], c.counters["pool_allocations"]
 	c.Extra("printer_reuses(calls-allocations)", calls-news)
 	if calls-news <= 0 {
 		c.Inconclusive("no printer was recycled: the probes never ran on a reused printer")
 	}
 	c.res.Assumptions = []string{"the reference process is trusted to be unaffected by history (each probe ran after two GCs on a pool proven empty)", "registration calls are not raced against printing (the statement is about the printing API)"}
+}
+
+// c12differential: random calls of the fmt-compatible universe, each compared
+// with fmt in the same goroutine, run by many goroutines at once in the race
+// build. Interference between concurrent calls shows as a text difference (and
+// as a race report); the case list is the one of C04 with another salt.
+func c12differential(c *Ctx) {
+	registerC04Types()
+	o := c04opts()
+	n := c.pick(60000, 1500000)
+	for _, procs := range []int{16, 4} {
+		prev := runtime.GOMAXPROCS(procs)
+		c.ParallelFor(n/2, func(w *Worker, i int64) {
+			r := newRng(c.Seed, 0xc12d, uint64(procs), uint64(i))
+			c04check(w, randCall(r, o), i)
+			if r.Chance(1, 8) {
+				runtime.Gosched()
+			}
+			w.Count("concurrent_differential_calls", 1)
+		})
+		runtime.GOMAXPROCS(prev)
+	}
 }
